@@ -27,6 +27,20 @@ func init() {
 type c18Stream struct {
 	Case gCase  `json:"case"`
 	Fam  string `json:"family"`
+	// Scn, when not nil: the case is a scenario of sessions (c18_sess.go) instead of a program for gExec.
+	Scn *c18Scn `json:"scenario,omitempty"`
+}
+
+// MarshalJSON leaves the (empty) program out of a scenario case, so that its replay input is the scenario alone.
+func (s c18Stream) MarshalJSON() ([]byte, error) {
+	if s.Scn != nil {
+		return json.Marshal(struct {
+			Fam string  `json:"family"`
+			Scn *c18Scn `json:"scenario"`
+		}{s.Fam, s.Scn})
+	}
+	type plain c18Stream
+	return json.Marshal(plain(s))
 }
 
 const c18PageSize = 262144
@@ -416,6 +430,9 @@ func init() {
 		if err := json.Unmarshal(raw, &st); err != nil {
 			return gSummary{Text: string(raw), Fails: []lib.Failure{{Kind: "tie", Key: "harness/job", What: err.Error()}}}
 		}
+		if st.Scn != nil {
+			return c18ScnSummarise(st, scratch)
+		}
 		return c18Summarise(c18RunPair(st, filepath.Join(scratch, "t")), modelOK)
 	}
 }
@@ -617,7 +634,10 @@ var c18Bits = "1111"
 
 func checkC18(c *lib.Ctx) {
 	r := c.R
-	r.Rule = "request streams: (mixed) PRNG pipelines of depth 1…30 over all request kinds incl. failing ones; (read-lengths) READs of length 0, 1, 2, 32767…32769, 65535…65537, 100000, 262130…262132 (= page − 13 ± 1), 262143, 262144 and 300000 under max-tx-packet 32768 (default), 65536, 262131 and 262144, some crossing or past end of file; (writes) WRITEs up to the largest frame (262122 bytes); (held) 24…64 READs with one request held back while all others complete; (paths) path requests of every kind in relative and absolute form between READs. (attrs) requests that carry an attribute block — SETSTAT / FSETSTAT with PRNG subsets of size, owner, permissions, times and extended pairs and PRNG values, OPEN and MKDIR with attributes, names of 4…170 bytes — standing in line behind a command request whose call is held (request server: STAT, LSTAT, MKDIR, READLINK, REMOVE, FSTAT, READDIR; os-backed: FSTAT, READDIR), followed by 1…3 more requests of different frame lengths (READ, WRITE of 1…5000 bytes, REALPATH of 30…3000 bytes, SETSTAT, LSTAT, RENAME) and by the LSTATs / FSTATs that show the outcome; gated with the command kept back as long as anything else can return, and once more serial / un-gated / with PRNG handler durations / gated fifo or uniform. Server options: every stream is run on servers started with ReadOnly() x WithServerWorkingDirectory (os-backed; a read-only server refuses every modifying request — WRITEs of 0 … 262122 bytes among them — with PERMISSION_DENIED before any handler runs, the page of the request frame must come back all the same) resp. WithStartDirectory (request server), paths then sent relative (one in four absolute); the mixed family on the request server also with handler sets lacking optional interfaces; quick: the combinations rotate over the streams of a family and the length sweep runs under every one, thorough: every stream of the read-lengths, writes, held and paths families under every combination. Each stream is run serially (request after reply), pipelined un-gated, pipelined with PRNG handler durations, and pipelined with every instrumented call held and released in a chosen order (fifo, lifo, uniform, earliest-held-longest, hold-request-k) — each time against the server WITHOUT and WITH the allocator, same scratch tree and same forced order. Besides the reply bytes the EFFECTS of the two runs are compared: on the request server what every command and open handler was shown (Request.Method, paths, Flags, AttrFlags(), Attributes(), raw Attrs; read after the call was let go), on the os-backed server kind / permissions / size / owner / modification time of every object the requests name once Serve has returned. Page discipline while requests wait: in every gated run, whenever the pipeline has taken in the whole stream, pages in use >= unanswered requests + 1 must hold (each unanswered request owns the page of its frame, the receive loop one more). A case = (server, stream, mode, order) = one pair of runs; non-trivial = at least one DATA reply or at least two requests in flight; distinct by (server, options, program, mode, order)"
+	r.Rule = "request streams: (mixed) PRNG pipelines of depth 1…30 over all request kinds incl. failing ones; (read-lengths) READs of length 0, 1, 2, 32767…32769, 65535…65537, 100000, 262130…262132 (= page − 13 ± 1), 262143, 262144 and 300000 under max-tx-packet 32768 (default), 65536, 262131 and 262144, some crossing or past end of file; (writes) WRITEs up to the largest frame (262122 bytes); (held) 24…64 READs with one request held back while all others complete; (paths) path requests of every kind in relative and absolute form between READs. (attrs) requests that carry an attribute block — SETSTAT / FSETSTAT with PRNG subsets of size, owner, permissions, times and extended pairs and PRNG values, OPEN and MKDIR with attributes, names of 4…170 bytes — standing in line behind a command request whose call is held (request server: STAT, LSTAT, MKDIR, READLINK, REMOVE, FSTAT, READDIR; os-backed: FSTAT, READDIR), followed by 1…3 more requests of different frame lengths (READ, WRITE of 1…5000 bytes, REALPATH of 30…3000 bytes, SETSTAT, LSTAT, RENAME) and by the LSTATs / FSTATs that show the outcome; gated with the command kept back as long as anything else can return, and once more serial / un-gated / with PRNG handler durations / gated fifo or uniform. Server options: every stream is run on servers started with ReadOnly() x WithServerWorkingDirectory (os-backed; a read-only server refuses every modifying request — WRITEs of 0 … 262122 bytes among them — with PERMISSION_DENIED before any handler runs, the page of the request frame must come back all the same) resp. WithStartDirectory (request server), paths then sent relative (one in four absolute); the mixed family on the request server also with handler sets lacking optional interfaces; quick: the combinations rotate over the streams of a family and the length sweep runs under every one, thorough: every stream of the read-lengths, writes, held and paths families under every combination. Each stream is run serially (request after reply), pipelined un-gated, pipelined with PRNG handler durations, and pipelined with every instrumented call held and released in a chosen order (fifo, lifo, uniform, earliest-held-longest, hold-request-k) — each time against the server WITHOUT and WITH the allocator, same scratch tree and same forced order. Besides the reply bytes the EFFECTS of the two runs are compared: on the request server what every command and open handler was shown (Request.Method, paths, Flags, AttrFlags(), Attributes(), raw Attrs; read after the call was let go), on the os-backed server kind / permissions / size / owner / modification time of every object the requests name once Serve has returned. Page discipline while requests wait: in every gated run, whenever the pipeline has taken in the whole stream, pages in use >= unanswered requests + 1 must hold (each unanswered request owns the page of its frame, the receive loop one more). A case = (server, stream, mode, order) = one pair of runs; non-trivial = at least one DATA reply or at least two requests in flight; distinct by (server, options, program, mode, order). " +
+		"SESSIONS (scenarios of steps over one to three sessions, executed by one goroutine; each run without and with the allocator; compared: the complete reply stream of every session, who ended it and what Serve returned, the effects — request server: every handler call with its data, os-backed: kind, permissions, size and content digest of every object named — and the allocator tables after Serve): " +
+		"(malformed-frames) a session opens five handles, sends 1…3 bursts of 1…6 well-formed WRITEs of 2000…32768 PRNG-like bytes and READs (every reply awaited: the pages now hold recognisable bytes), then ONE CHANGED FRAME, alone, whose outer length is right and whose inside is not: for each of 26 request shapes (WRITE with 0 / 8 / 1000 data bytes, READ, FSTAT, READDIR, CLOSE, FSETSTAT and SETSTAT with extended pairs, fsync, STAT, LSTAT, OPENDIR, OPEN, OPEN with attributes, MKDIR with attributes, REMOVE, RMDIR, REALPATH, READLINK, RENAME, SYMLINK, statvfs, posix-rename, hardlink, unknown extension) every word that says how much follows — string / data lengths, attribute flags, extended count — set to v+1, v+7, v+1492, v+100000, (bytes present)+1, 2v+1, v-1, 0, 262144, 2^31-1, 2^32-1, v|0x8000000f; the last 1…13 bytes cut off; only the first 0…12 bytes kept; 1…100000 trailing bytes; 15 frames that are no request (empty frame, length word above the maximum, unknown and reply types, INIT again); the change is answered or the server ends the session; where it goes on, READs of the region a WRITE was aimed at and of known content follow; then the handles are closed and the input ends (some sessions: inside a frame). quick: every change of the three WRITE shapes, a PRNG sample of 110 of the others per server (os-backed: 25 more on a read-only server), sessions with 2…3 changed frames, under rotating ReadOnly / working directory options; thorough: every change under every option combination. " +
+		"(reused-option-values) the option list — WithAllocator / WithRSAllocator (the pair compared), WithMaxTxPacket, ReadOnly, working / start directory — is built ONCE and two or three servers are started from it (one run in six: values of their own, as a control); session 0 pipelines 3…10 READs of distinct contents with one of the first three calls held, so that the replies behind it wait in the server; a neighbour session on another server then answers at least as many requests (same order ids) and takes in a burst of 8…16 READs / WRITEs of up to 32768 bytes with the first 1…6 calls held (as many pages in use at once), variants: who is let go first, more traffic afterwards, the neighbour ending (Serve frees its allocator) while session 0 waits and a third server starting after that, two waiting sessions; besides the off/on comparison every session is run once more ALONE on a server of freshly built option values (allocator off) and must be answered the same (servers built from one option value share no state)"
 	thorough := c.Tier == "thorough"
 	if t := gCurCfg(c, "c18", "11111:262144:32768"); len(t) >= 4 {
 		c18Bits = t[:4]
@@ -629,6 +649,9 @@ func checkC18(c *lib.Ctx) {
 	describe := func(raw json.RawMessage) (string, any) {
 		var st c18Stream
 		json.Unmarshal(raw, &st)
+		if st.Scn != nil {
+			return st.Scn.Server, st
+		}
 		return st.Case.Prog.Server, st
 	}
 
@@ -664,6 +687,18 @@ func checkC18(c *lib.Ctx) {
 					cs.Order = c02RandomOrder(p, c.Rand, strings.TrimPrefix(m, "gated/"))
 				}
 				jobs = append(jobs, gJSON(c18Stream{Case: cs, Fam: fam}))
+			}
+		}
+		// Sessions first (c18_sess.go): servers started from ONE list of option values with overlapping sessions, and
+		// sessions with malformed / inconsistent frames; their failures are decided by the harness alone.
+		for _, server := range []string{"rs", "os"} {
+			for _, st := range c18ReuseJobs(c.Rand, server, thorough) {
+				jobs = append(jobs, gJSON(st))
+			}
+		}
+		for _, server := range []string{"rs", "os"} {
+			for _, st := range c18MalformedJobs(c.Rand, server, thorough) {
+				jobs = append(jobs, gJSON(st))
 			}
 		}
 		for _, server := range []string{"rs", "os"} {
